@@ -8,7 +8,10 @@ import (
 	"encoding/json"
 	"flag"
 	"fmt"
+	"github.com/invopop/gobl/cal"
+	"github.com/invopop/gobl/num"
 	"math/rand"
+	"strings"
 
 	"github.com/invopop/gobl/bill"
 	"github.com/invopop/gobl/cbc"
@@ -31,10 +34,14 @@ type idEvent struct {
 	CC       string `json:"cc"`
 	Kind     string `json:"kind"`
 	Raw      []int  `json:"raw"`
-	Norm     []int  `json:"norm"`      // what the code normalised the raw text to
-	Norm2    []int  `json:"norm2"`     // ... and normalised again
-	Ok       bool   `json:"ok"`        // accepted by validation
-	PartyOk  bool   `json:"party_ok"`  // the same verdict through a party carrying the identity
+	Norm     []int  `json:"norm"`     // what the code normalised the raw text to
+	Norm2    []int  `json:"norm2"`    // ... and normalised again
+	Ok       bool   `json:"ok"`       // accepted by validation
+	PartyOk  bool   `json:"party_ok"` // the same verdict through a party carrying the identity
+	DocOk    bool   `json:"doc_ok"`   // the same verdict when the identity is the customer's in an invoice and in a payment
+	DocWhich string `json:"doc_which"`
+	AltOk    bool   `json:"alt_ok"` // ... and under the regime's alternative country codes (XI, XU for GB; GR for EL)
+	AltWhich string `json:"alt_which"`
 	Host     string `json:"host"`      // a document regime under which a party carrying the identity was normalised ...
 	HostNorm []int  `json:"host_norm"` // ... and what the identity became (the first host that alters it, else the own normal form)
 	Panic    bool   `json:"panic"`
@@ -63,6 +70,43 @@ func idRun(cc string, raw []int, kind string) (ev idEvent) {
 	p := &org.Party{Name: "X", TaxID: &tax.Identity{Country: l10n.TaxCountryCode(cc), Code: cbc.Code(fromCps(raw))}}
 	p.Normalize(nil)
 	ev.PartyOk = p.TaxID.Validate() == nil
+	// the identity as a customer's, in an invoice and in a payment: documents validate their parties
+	ev.DocOk, ev.AltOk = ev.Ok, ev.Ok
+	mentionsCustomer := func(err error) bool { return err != nil && strings.Contains(err.Error(), "customer") }
+	cust := func() *org.Party {
+		return &org.Party{Name: "Customer", TaxID: &tax.Identity{Country: l10n.TaxCountryCode(cc), Code: cbc.Code(fromCps(raw))}}
+	}
+	if len(raw) > 0 {
+		price := num.MakeAmount(1000, 2)
+		inv := &bill.Invoice{Regime: tax.WithRegime("ES"), Currency: "EUR", IssueDate: cal.MakeDate(2024, 6, 1), Code: "1",
+			Supplier: &org.Party{Name: "S", TaxID: &tax.Identity{Country: "ES", Code: "B98602642"}}, Customer: cust(),
+			Lines: []*bill.Line{{Quantity: num.MakeAmount(1, 0), Item: &org.Item{Name: "x", Price: &price}}}}
+		if inv.Calculate() == nil {
+			if got := !mentionsCustomer(inv.Validate()); got != ev.Ok {
+				ev.DocOk, ev.DocWhich = got, "invoice"
+			}
+		}
+		pmt := &bill.Payment{Regime: tax.WithRegime("ES"), Currency: "EUR", IssueDate: cal.MakeDate(2024, 6, 1), Code: "1", Type: bill.PaymentTypeReceipt,
+			Supplier: &org.Party{Name: "S", TaxID: &tax.Identity{Country: "ES", Code: "B98602642"}}, Customer: cust(),
+			Lines: []*bill.PaymentLine{{Debit: &price}}}
+		if pmt.Calculate() == nil && ev.DocOk == ev.Ok {
+			if got := !mentionsCustomer(pmt.Validate()); got != ev.Ok {
+				ev.DocOk, ev.DocWhich = got, "payment"
+			}
+		}
+	}
+	rawText := strings.ToUpper(strings.TrimSpace(fromCps(raw)))
+	for _, alt := range map[string][]string{"GB": {"XI", "XU"}, "EL": {"GR"}}[cc] {
+		if strings.HasPrefix(rawText, cc) || strings.HasPrefix(rawText, "GR") {
+			break // the text carries its own country prefix, which belongs to that spelling of the country
+		}
+		ai := &tax.Identity{Country: l10n.TaxCountryCode(alt), Code: cbc.Code(fromCps(raw))}
+		ai.Normalize()
+		if got := ai.Validate() == nil; got != ev.Ok {
+			ev.AltOk, ev.AltWhich = got, alt
+			break
+		}
+	}
 	// the party inside documents of other regimes: the host's normalisers must leave a foreign identity alone
 	ev.Host, ev.HostNorm = cc, ev.Norm
 	for _, host := range idHosts {
